@@ -711,6 +711,13 @@ def validation_loop_facts(P, f, vcall, frag_param, count_param):
         if N_ is not None and N_ == want and (not rot_ or LL.entry_positive(N_)):
             guard = g
     if guard is None:
+        # first iteration peeled off: the loop does fragments 1 .. n-1, fragment 0 is validated in front of it (checked by the caller)
+        for g in LL.guards():
+            N_, rot_ = LL.count_for(g)
+            if N_ is not None and N_ == want - Poly.const(1) and not rot_ and g.block is h:
+                guard = g
+                res['peeled'] = True
+    if guard is None:
         res['problems'].append('the loop does not run once per supplied fragment (no header guard with trip count num_fragments): '
                                + '; '.join(f'{g.lhs} {g.pred} {g.bound} -> {LL.trip(g)} iterations' for g in LL.guards())[:160])
         return res
@@ -736,7 +743,7 @@ def validation_loop_facts(P, f, vcall, frag_param, count_param):
         pt = LL.ptr_at_iteration(*pc.ptr(d.ops[0]))
         if pt is not None and pt[0] == f'arg{frag_param}':
             ab = affine_in_t(pt[1])
-            if ab is not None and ab[0].is_zero() and ab[1] == Poly.const(8):
+            if ab is not None and ab[0] == Poly.const(8 if res.get('peeled') else 0) and ab[1] == Poly.const(8):
                 okarg = True
     if not okarg:
         res['problems'].append('validated value is not fragments[i] for i = 0 .. num_fragments-1')
@@ -813,6 +820,39 @@ def rule_validation_gates(ctx, P, r, ebad):
             if info['problems']:
                 problems += info['problems']
                 continue
+            if info.get('peeled'):
+                # fragments[0] must have been validated by a call in front of the loop whose failure leaves with an error
+                from ..retval import returns_via_edge as _rve_p, all_negative as _an_p
+                from ..cfg import dominators as _dm_p, dominates as _dom_p
+                idom_p = _dm_p(f)
+                first_ok = False
+                for v0 in vcalls:
+                    if v0 is v:
+                        continue
+                    if not _dom_p(idom_p, v0.bb, info['header']):
+                        # ... unless it is skipped only when there is no first fragment (`if (n > 0) check(fragments[0])`)
+                        from ..guards import upper_bound_at as _ub_p
+                        skips = set()
+                        for b_ in f.order:
+                            if len(b_.succs) == 2:
+                                for s_ in b_.succs:
+                                    u_ = _ub_p(P, f, f.params[cp][1], b_, (b_, s_))
+                                    if u_ is not None and u_ <= 0:
+                                        skips.add((b_, s_))
+                        if info['header'] in reachable_from(f.entry, avoid_edges=skips, avoid_blocks={v0.bb}):
+                            continue
+                    a0 = f.defs.get(strip_ptr_casts(f, v0.ops[-1]))
+                    if a0 is None or a0.op != 'load' or strip_ptr_casts(f, a0.ops[0]) != f.params[fp][1]:
+                        continue
+                    t0 = v0.bb.insts[-1]
+                    c0 = f.defs.get(t0.ops[0]) if t0.op == 'br' and t0.ops else None
+                    if c0 is not None and c0.op == 'icmp' and v0.res in [strip_int_casts(f, o) for o in c0.ops] and '0' in c0.ops and len(t0.targets) == 2:
+                        bad_t = t0.targets[0] if c0.pred == 'ne' else t0.targets[1]
+                        if _an_p(_rve_p(f, v0.bb, f.blocks[bad_t])):
+                            first_ok = True
+                if not first_ok:
+                    problems.append('the loop starts at the second fragment and no validation of the first one was found in front of it')
+                    continue
             good = (v, info)
         if good is None:
             r.fail(inst, func=f.name, sig='validation loop incomplete: ' + '; '.join(sorted(set(problems)))[:120], loc=vcalls[0].loc,
@@ -1361,3 +1401,32 @@ def canon_eval(e, env, w=32):
                     r_ &= M
                     return r_ - (1 << w) if r_ >> (w - 1) else r_
     return None
+
+
+def total_iterations(P, f, insts):
+    """sum of the iteration counts of the (innermost) loops that hold the given instructions, as a poly.py form; None when an
+    instruction is not in a loop or its loop's count is not known.  Two loops over k and m, or one fused loop over k + m, give
+    the same total"""
+    from ..poly import PolyCtx, Poly
+    from ..loops import loops_of, innermost
+    pc = PolyCtx(P, f)
+    LS = loops_of(P, f, pc)
+    tot, seen = Poly(), set()
+    for i in insts:
+        L = innermost(LS, i.bb)
+        if L is None:
+            return None
+        if L.header in seen:
+            continue
+        seen.add(L.header)
+        hg = [g for g in L.guards() if g.block is L.header]
+        N = L.count_for(hg[0])[0] if len(hg) == 1 else None
+        if N is None:
+            return None
+        tot = tot + N
+    return tot
+
+def is_k_plus_m_poly(p):
+    ks = [k_ for k_ in p if len(k_) == 1 and (k_[0] == 'arg1' or re.search(r'\.k$', k_[0]))]
+    ms = [k_ for k_ in p if len(k_) == 1 and (k_[0] == 'arg2' or re.search(r'\.m$', k_[0]))]
+    return len(p) == 2 and len(ks) == 1 and len(ms) == 1 and all(v == 1 for v in p.values())
